@@ -36,6 +36,18 @@ def has_sym(a):
     return False
 
 
+class OpaqueStr:
+    """the string rendering of a symbolic number; only its existence / dtype is modelled"""
+
+    def _no(self, *a, **k):
+        raise Unencodable("string rendering of a symbolic number was inspected")
+
+    __eq__ = __ne__ = __lt__ = __le__ = __gt__ = __ge__ = __hash__ = __str__ = __len__ = _no
+
+    def __repr__(self):
+        return "<str(sym)>"
+
+
 def coerce(v, dt):
     """store value v into an array of declared dtype dt."""
     k = dt.kind
@@ -74,7 +86,7 @@ def coerce(v, dt):
         return bool(v)
     if k in "US":
         if is_sym(v):
-            raise Unencodable("symbolic number stored in a string array")
+            return OpaqueStr()  # str(<symbolic number>): any later use of the value is unmodelled
         return str(np.array(v, dtype=dt))
     return v  # object
 
